@@ -621,6 +621,8 @@ func (env *SpecEnv) evalCall(x *ECall) specVal {
 			return env.iterCount()
 		case "iterkey":
 			return env.iterKey(env.evalTerm(x.Args[0]))
+		case "iteridx":
+			return env.iterIdx(env.evalTerm(x.Args[0]))
 		case "ifaceval":
 			_, fv := u.ifaceFns()
 			return specVal{v: leaf(c.App(fv, env.evalTerm(x.Args[0])))}
@@ -838,6 +840,24 @@ func (env *SpecEnv) iterCount() specVal {
 		}
 	}
 	specFail("iter(): loop is not a range loop")
+	return specVal{}
+}
+
+func (env *SpecEnv) iterIdx(k *Term) specVal {
+	u := env.u
+	if env.li == nil {
+		specFail("iteridx() outside a loop invariant")
+	}
+	for _, in := range env.li.header.Instrs {
+		if nx, ok := in.(*ssa.Next); ok {
+			if it := env.st.iters[nx.Iter]; it != nil {
+				ks := u.mapKeySort(it.mt)
+				_, idx := u.mapEnumFns(ks)
+				return specVal{v: leaf(u.c.App(idx, it.id, k)), t: types.Typ[types.Int]}
+			}
+		}
+	}
+	specFail("iteridx(): loop is not a map range loop")
 	return specVal{}
 }
 
